@@ -104,7 +104,7 @@ _MISSING = object()
 
 def dict_find(d, k):
     """the key object of d equal to k (equality decided by the solver), or _MISSING"""
-    for kk in list(d.keys()):
+    for kk in list(d):
         if _key_eq(kk, k):
             return kk
     return _MISSING
@@ -160,6 +160,47 @@ def vf_setitem(a, b, v):
             a[kk] = v
             return
     a[b] = v
+
+
+_DICT_KEYS = type({}.keys())
+
+
+def _has_sym_key(d):
+    for k in d:
+        if _s(k):
+            return True
+    return False
+
+
+def _val_eq(x, y):
+    r = x == y
+    if r is NotImplemented:
+        return False
+    return B(r) if isinstance(r, SymBool) else bool(r)
+
+
+def dict_eq(a, b):
+    """dict equality with keys compared through the solver (a C-level comparison would probe by hash)"""
+    if len(a) != len(b):
+        return False
+    for ka in list(a):
+        kb = dict_find(b, ka)
+        if kb is _MISSING:
+            return False
+        if not _val_eq(a[ka], b[kb]):
+            return False
+    return True
+
+
+def vf_eq(a, b, neg):
+    ta, tb = type(a), type(b)
+    if ta is dict and tb is dict and (_has_sym_key(a) or _has_sym_key(b)):
+        r = dict_eq(a, b)
+        return (not r) if neg else r
+    if ta is _DICT_KEYS and tb is _DICT_KEYS and (_has_sym_key(a) or _has_sym_key(b)):
+        r = len(a) == len(b) and all(dict_find(b, k) is not _MISSING for k in list(a))
+        return (not r) if neg else r
+    return (a != b) if neg else (a == b)
 
 
 def vf_in(a, b, neg):
@@ -245,6 +286,16 @@ class _T(ast.NodeTransformer):
 
     def visit_Compare(self, node):
         self.generic_visit(node)
+        if len(node.ops) == 1 and isinstance(node.ops[0], (ast.Eq, ast.NotEq)):
+            STATS["eq"] = STATS.get("eq", 0) + 1
+            return ast.copy_location(
+                ast.Call(
+                    ast.Name("__vf_eq__", ast.Load()),
+                    [node.left, node.comparators[0], ast.Constant(isinstance(node.ops[0], ast.NotEq))],
+                    [],
+                ),
+                node,
+            )
         if len(node.ops) == 1 and isinstance(node.ops[0], (ast.In, ast.NotIn)):
             STATS["in"] += 1
             return ast.copy_location(
@@ -297,6 +348,7 @@ def install():
     builtins.__vf_getitem__ = vf_getitem
     builtins.__vf_setitem__ = vf_setitem
     builtins.__vf_in__ = vf_in
+    builtins.__vf_eq__ = vf_eq
     root = os.path.join(repo_root(), "src", "betterproto")
     if "betterproto" in sys.modules:
         raise RuntimeError("betterproto imported before the DESUGAR hook")
